@@ -149,6 +149,12 @@ def post_explore(ctx, res, pids, opts):
             a_arr2 = psp.get_action(arr)
             same = (type(a_arr1) is type(a) and type(a_arr2) is type(a)
                     and (isinstance(a, NoOp) or (action_fields(a_arr1) == action_fields(a) == action_fields(a_arr2))))
+            # the space's own dtype is int64, but it also CONTAINS the same vector held in any other integer dtype
+            # (MultiDiscrete.contains accepts them): every container of one vector decodes to the same action
+            for dt in (np.uint8, np.int8, np.uint32):
+                if max(vec) < 127:
+                    a_dt = psp.get_action(np.array(vec, dtype=dt))
+                    same = same and type(a_dt) is type(a) and (isinstance(a, NoOp) or action_fields(a_dt) == action_fields(a))
             if not np.array_equal(arr, np.array(vec)) or not same:
                 rep("parameterised_vector_changed_or_decoded_differently_when_decoded_again",
                     {"vector": list(vec), "array_after_decoding": arr.tolist()})
